@@ -25,6 +25,9 @@ import re
 from . import cfg as _cfg
 
 
+_IMM_CACHE = {}
+
+
 class AnalysisIncomplete(Exception):
     pass
 
@@ -286,6 +289,11 @@ class Explorer(object):
         self.pure = set(PURE) | set(pure)
         self.npaths = 0
         self.record_loads = record_loads
+        from . import summaries as _summ
+        key_ = tuple(id(m) for m in modules)
+        if key_ not in _IMM_CACHE:
+            _IMM_CACHE[key_] = _summ.immutable_fields(modules)
+        self.immutable = _IMM_CACHE[key_]
 
     # -- value evaluation ----------------------------------------------------
     def string_of(self, val):
@@ -384,6 +392,10 @@ class Explorer(object):
 
     def _version(self, st, addr):
         key = self._vkey(addr)
+        if field_of(addr) in self.immutable and addr[0] == 'fld':
+            # never written after construction: calls do not invalidate it (explicit stores on the
+            # path still go through st.mem)
+            return (st.ver.get(('imm', key), 0), 0)
         return (st.ver.get(key, 0), st.wild)
 
     def _bump(self, st, key):
